@@ -142,7 +142,7 @@ func searchLoopbackVia(w *World, q *QueryDef, resp map[string]*protoCommonV1.Tas
 	rs, err := query.MetricDataSearch(ctx, &models.ExecuteParam{Database: database, SQL: "q"}, q.statement(w), &query.SearchMgr{
 		Timeout:      2 * time.Second,
 		CurNode:      models.StatelessNode{HostIP: "1.1.1.1", GRPCPort: 9000},
-		Choose:       &plainChooser{targets: targets},
+		Choose:       &plainChooser{plans: [][]string{targets}},
 		TaskMgr:      mgr,
 		TransportMgr: tr,
 	})
